@@ -104,19 +104,8 @@ def robust_twin(chibicc, wd, name, cases, build, run_timeout=600, extra_units=()
 # ---------------------------------------------------------------------------------------------------------
 # (a) statement trees
 # ---------------------------------------------------------------------------------------------------------
-ALLOPS = {"and", "or", "cond", "elvis", "comma", "not", "se"}
-# the typed tape bits Cc/Cl/Cf/Cd/Cld/Cp (one per class of truth test: 8/32-bit integer, 64-bit integer, float, double,
-# long double, pointer) are operands costing 1, like T()/Z()
 FULL = {"empty": 1, "ret": 1, "goto": 1, "cgoto": 1, "label": 1, "for": (0, 1, 2), "fornocond": 1, "blk3": 1,
-        "switch": trees.SWITCH_SHAPES, "exprs": ALLOPS, "exprleaves": 1, "tleaves": trees.TYPED_LEAVES}
-# mixed operand types: every condition leaf is C() or any typed tape bit at no cost, so size 1 holds every condition
-# context (if, if/else, while, do, for, !, ?: condition, GNU ?:, both sides of && and ||, comma, statement expression) with
-# every operand type and every PAIR (triple for ?:) of operand types; size 2 every nesting of two such forms
-TYPED = {"for": (0,), "noblk": 1, "exprs": ALLOPS, "tleaves": trees.TYPED_LEAVES, "tfree": 1}
-# Duff's device: switch with a free-form body; case/default labels (<= 3, every shape) on any statement at any depth of
-# if/else, while, do, for, compound and labelled statements, plus break/continue/return/goto
-DUFF = {"swd": 1, "for": (1,), "ret": 1, "goto": 1, "label": 1}
-DUFFDEEP = {"swd": 1, "for": (1,)}
+        "switch": trees.SWITCH_SHAPES, "exprs": {"and", "or", "cond", "elvis", "comma", "not", "se"}, "exprleaves": 1}
 # reduced alphabet for the largest size: no 3-child compounds, one for-variant, three switch shapes, no T/Z operands
 CORE = {"ret": 1, "goto": 1, "label": 1, "for": (2,), "switch": [(0, "d"), ("d", 0, 1), (0, 1, 2)],
         "exprs": {"and", "or", "cond", "elvis", "comma", "se"}}
@@ -124,11 +113,10 @@ CORE = {"ret": 1, "goto": 1, "label": 1, "for": (2,), "switch": [(0, "d"), ("d",
 LOOPS = {"for": (1,), "switch": [(0, "d")]}
 LOOPSGOTO = {"ret": 1, "goto": 1, "label": 1, "for": (1,), "switch": [(0, "d")]}
 TREE_LAYERS = {
-    "quick": [("full", FULL, (0, 1, 2, 3), 4), ("loops+goto", LOOPSGOTO, (4,), 4), ("typed", TYPED, (1,), 4), ("duff", DUFF, (1, 2, 3), 4)],
-    "thorough": [("full", FULL, (0, 1, 2, 3), 6), ("core", CORE, (4,), 5), ("loops", LOOPS, (5,), 5), ("typed", TYPED, (1, 2), 5),
-                 ("duff", DUFF, (1, 2, 3), 6), ("duffdeep", DUFFDEEP, (4,), 5)],
+    "quick": [("full", FULL, (0, 1, 2, 3), 4), ("loops+goto", LOOPSGOTO, (4,), 4)],
+    "thorough": [("full", FULL, (0, 1, 2, 3), 6), ("core", CORE, (4,), 5), ("loops", LOOPS, (5,), 5)],
 }
-TREE_DECL = "int T(int); int Z(int); int C(void); int C2(void); int SEL(int); void V(long);\n" + trees.LEAF_DECL + "\n"
+TREE_DECL = "int T(int); int Z(int); int C(void); int C2(void); int SEL(int); void V(long);\n"
 
 PROGS = []        # filled in the parent before workers are forked: (layer name, L, tree)
 
@@ -656,7 +644,7 @@ def run_switch(ctx):
 # ---------------------------------------------------------------------------------------------------------
 from models import c03_scope as scope
 
-SC_DECL = "long FN(out)[%d]; int FN(jmp);\n" % scope.NS
+SC_DECL = "long FN(out)[18]; int FN(jmp);\n"
 SC_DRV_OBJ = None
 SC_CASES = []
 
@@ -666,7 +654,8 @@ def build_scope_batch(cases):
     tab = [struct.pack("<q", len(cases))]
     for i, c in enumerate(cases):
         u.append(c.source(i))
-        tab.append(struct.pack("<%dq" % (1 + 2 * scope.NS), *c.table()))
+        runs = c.model()
+        tab.append(struct.pack("<36q", *(runs[0] + runs[1])))
     u.append("void (*FN(ctab)[])(short, void *) = {%s};" % ", ".join("(void (*)(short, void *))FN(f%d)" % i for i in range(len(cases))))
     u.append("int FN(nctab) = %d;" % len(cases))
     return "\n".join(u) + "\n", "int c03_unused;\n", {"table.bin": b"".join(tab)}
@@ -698,14 +687,11 @@ def _scope_fail_worker(args):
 def scope_sig(c, st):
     if st[0] == "R":
         return "C03|scope|%s|rejected:%s:%s" % (c.cid(), st[1], st[2])
-    mode, k, want, got = st[1], st[2], st[3], st[4]
+    mode, site, want, got = st[1], st[2], st[3], st[4]
     if got == "signal":
         return "C03|scope|%s|signal" % c.cid()
-    site, slot = k // scope.NSLOT, k % scope.NSLOT
-    where = c.site_name(site) + ("+goto" if mode and c.family == "chain" else "")
-    if c.family == "stmt":
-        where = c.kw + ":" + where
-    return "C03|scope|%s|at:%s|binds:%s,want:%s" % (scope.SLOT_NAMES[slot], where, c.decode(slot, int(got)), c.decode(slot, want))
+    ns = "ordinary" if site % 2 == 0 else "tag"
+    return "C03|scope|%s|at:%s|binds:%s,want:%s" % (ns, scope.SITE_NAMES[site // 2] + ("+goto" if mode else ""), scope.decode(int(got), c), scope.decode(want, c))
 
 
 SC_REPLAY = ("$CHIBICC -DPFX=cc_ -c -o cc.o unit.c || exit 1\n"
@@ -793,8 +779,7 @@ def run_scope(ctx):
             desc = "valid program rejected (%s status %s: %s): %s" % (st[1], st[2], st[3], c.cid())
             rp = "$CHIBICC -DPFX=cc_ -c -o cc.o unit.c && exit 0; exit 1"
         else:
-            desc = "identifier binds to the wrong declaration: %s %s, run jmp=%d, probe %d (%s, %s): want %s got %s" % (
-                c.family, c.cid(), st[1], st[2], c.site_name(st[2] // scope.NSLOT) if st[2] >= 0 else "-", scope.SLOT_NAMES[st[2] % scope.NSLOT], st[3], st[4])
+            desc = "identifier binds to the wrong declaration: chain %s, run jmp=%d, probe %d (%s): want %s got %s" % (c.cid(), st[1], st[2], scope.SITE_NAMES[st[2] // 2], st[3], st[4])
             rp = SC_REPLAY
         desc += "  [%d enumerated cases shrink to this one; first: %s]" % (len(lst), c0.cid())
         for _ in lst:
